@@ -54,8 +54,12 @@ fn run_sequence(api: &'static SetApi, seq: &[Op], script: &[Answer], fallback_sk
     let ctx = b"c12";
     let mut expected_requests = 0usize;
     for (oi, op) in seq.iter().enumerate() {
-        out.ops_run += 1;
         let first_req = rng.pos;
+        if first_req + op.requests() > script.len() {
+            // an earlier operation consumed more RNG answers than one per request (e.g. a silent retry): reported below
+            break;
+        }
+        out.ops_run += 1;
         let ans = |k: usize| script.get(first_req + k).cloned();
         let bytes_of = |a: &Answer| -> Option<[u8; 32]> {
             if let Answer::Ok(b) = a {
@@ -271,7 +275,7 @@ fn sig_shapes(p: &'static refmodel::Params, pkc0: &PkCtx, tier: Tier) -> Vec<(St
     out.push(("counter".into(), (0..p.sig_len).map(|i| i as u8).collect()));
     out.push(("shake".into(), refmodel::shake256(&[b"c13"], p.sig_len)));
     // raw z-field patterns x hint strings x c_tilde patterns
-    let hs: Vec<e3::HintStr> = e3::structured_strings(p.k, p.omega, 1).into_iter().step_by(tier.pick(7, 1)).chain(e3::heavy_strings(p.k, p.omega).into_iter().step_by(tier.pick(3, 1))).collect();
+    let hs: Vec<e3::HintStr> = e3::structured_strings(p.k, p.omega, tier.pick(1, 2)).into_iter().step_by(tier.pick(2, 3)).chain(e3::heavy_strings(p.k, p.omega)).collect();
     let zlen = p.hint_off() - p.ctilde_len();
     let zpats: Vec<(&str, Vec<u8>)> = vec![("z=gamma1(all-00)", vec![0u8; zlen]), ("z=-gamma1+1(all-ff)", vec![0xFF; zlen]), ("z-counter", (0..zlen).map(|i| (i * 13 + 5) as u8).collect())];
     for (i, h) in hs.iter().enumerate() {
